@@ -8,6 +8,7 @@ under the event alphabet
                       including the ones drivers perform internally)
    driver(name, pt)   gradient / jacobian / vec_jac / jac_vec / hess_vec / hessian
    other              record and differentiate a second, different graph and leave ITS recording switched on
+   other_finish       (after 'other') the second graph records two more operations, is closed and differentiated
 is explored breadth-first (amc/explore.py).  Oracle per transition: the value returned must equal the
 value computed from the call's arguments alone - by running the program directly (fwd, jac_vec) or on a
 freshly recorded single-use graph recorded at exactly the input of the call (rev, other drivers).
@@ -78,7 +79,7 @@ def event_menu(scalar, tier):
             evs += [('hessian', 1)]
     else:
         evs += [('jacobian', 0), ('jacobian', 1)]
-    evs += [('vec_jac', 1), ('jac_vec', 0), ('other',), ('jacobian_utpm', 0)]
+    evs += [('vec_jac', 1), ('jac_vec', 0), ('other',), ('jacobian_utpm', 0), ('other_finish',)]
     return evs
 
 
@@ -90,6 +91,7 @@ class Sys(object):
         x0 = make_input(REC_POINT, reckind, seed) if reckind != 'nd' else np.array(PR.POINTS[REC_POINT], dtype=float)
         self.cg, self.x, self.y = PR.record(prog, x0)
         self.other = None
+        self.other_done = True
         self.held = []
 
 
@@ -163,9 +165,23 @@ def step_raw(sys_, ev):
         cg2, x2, y2 = PR.record(PR.SCENARIOS['view1'], np.array(PR.POINTS[2], dtype=float))
         g = cg2.gradient(np.array(PR.POINTS[1], dtype=float))
         cg2.trace_on()           # leave the OTHER graph recording
-        sys_.other = cg2
+        sys_.other = (cg2, x2, y2)
+        sys_.other_done = False
         return np.array(g, copy=True)
+    if kind == 'other_finish':
+        # the other graph, left recording by an earlier 'other' event, records two more operations, is closed and
+        # differentiated: whatever was done with the graph under test in between must not have disturbed its recording
+        return other_finish(*sys_.other, mark=sys_)
     raise ValueError(ev)
+
+
+def other_finish(cg2, x2, y2, mark=None):
+    y3 = y2 * x2[0] + algopy.sum(x2 * x2)
+    cg2.trace_off()
+    cg2.dependentFunctionList = [y3]
+    if mark is not None:
+        mark.other_done = True
+    return np.array(cg2.gradient(np.array(PR.POINTS[1], dtype=float)), copy=True)
 
 
 def fresh_rev(prog, xdata, ybar_data):
@@ -242,6 +258,14 @@ def reference(sys_before_input, prog, ev, seed, M):
         g = cg2.gradient(np.array(PR.POINTS[1], dtype=float))
         Function.cgraph = None
         return np.array(g, copy=True)
+    if kind == 'other_finish':
+        Function.cgraph = None
+        cg2, x2, y2 = PR.record(PR.SCENARIOS['view1'], np.array(PR.POINTS[2], dtype=float))
+        cg2.gradient(np.array(PR.POINTS[1], dtype=float))
+        cg2.trace_on()
+        g = other_finish(cg2, x2, y2)
+        Function.cgraph = None
+        return g
     raise ValueError(ev)
 
 
@@ -275,6 +299,7 @@ def state_key(sys_):
     g = Function.cgraph
     h.update(b'cg:none' if g is None else (b'cg:self' if g is cg else b'cg:other'))
     h.update(repr((cg.functionCount, len(cg.functionList))).encode())
+    h.update(repr((sys_.other_done, None if sys_.other is None else len(sys_.other[0].functionList))).encode())
     return h.hexdigest()
 
 
@@ -333,6 +358,8 @@ def explore_program(prog, reckind, tier, seed, depth=None, only_history=None):
         out = []
         for ev in usable:
             if ev[0] == 'rev' and cur_input(sys_) is None:
+                continue
+            if ev[0] == 'other_finish' and sys_.other_done:
                 continue
             out.append(ev)
         return out
